@@ -5,7 +5,7 @@
    looks at the flag reaches after n instruction executions, [unseen_before c k] says that none of
    the polls 0..k-1 sees the flag.  All statements are parametric in the commands. *)
 From stdpp Require Import gmap.
-Require Import DS.Base DS.Runner DS.RunnerHalt.
+Require Import DS.Base DS.Runner DS.RunnerHalt DS.SdkErr DS.SdkErrProof DS.RunnerNested.
 Local Open Scope nat_scope.
 
 Section C13.
@@ -63,3 +63,53 @@ Theorem C13_by_command : forall prog w n cn,
     forall fuel, k < fuel -> run cstate exists_cmd cmd ext fuel prog w = Done (FOk Halted (wd ck)) (trace ck).
 Proof. intros prog w n cn. exact (halt_by_command cstate exists_cmd cmd ext prog (label_table prog) (init w) n cn). Qed.
 End C13.
+
+(* ---- nested flows (script-implemented commands, condition functions, eval) ------------------ *)
+(* eval_instructions (utils/eval.rs, modelled in SdkErr.v) never looks at the flag.  If the commands
+   themselves behave alike whether the flag is up or not, a nested flow started with the flag up
+   runs exactly the inner instructions it runs with the flag down, with the same results, output
+   and invocations: nothing inside is skipped or cut short *)
+Theorem C13_nested_blind : forall cstate exists_cmd (cmd : str -> inv -> world cstate -> result * world cstate),
+  (forall name a w, cmd name a (with_halt cstate w true) = (fst (cmd name a w), with_halt cstate (snd (cmd name a w)) true)) ->
+  forall fuel body line w fo calls,
+  eval_instructions cstate exists_cmd cmd fuel body line (with_halt cstate w true) fo calls =
+  match eval_instructions cstate exists_cmd cmd fuel body line w fo calls with
+  | Some o => Some (EO cstate (eo_result cstate o) (eo_output cstate o) (with_halt cstate (eo_w cstate o) true) (eo_calls cstate o))
+  | None => None
+  end.
+Proof. exact eval_flag_blind. Qed.
+
+(* C13_prefix with "instruction execution" meaning top-level instruction: the command of the
+   instruction at pc is a script-implemented command (the wrapper over eval_instructions) whose
+   inner instruction j raises the flag (commands never clear it, the wrapper's clean-up does not
+   touch it).  Then the flag is up when the command returns, the configuration after the top-level
+   instruction is the one of the un-halted machine after that one instruction ([iter_nohalt 1]),
+   and the run returns Ok Halted with exactly that configuration at the next poll *)
+Theorem C13_nested : forall cstate exists_cmd (cmd : str -> inv -> world cstate -> result * world cstate) ext,
+  (forall name a w, halt w = true -> halt (snd (cmd name a w)) = true) ->
+  forall prog lt prepare cleanup leaked,
+  (forall w0 w1, halt (cleanup w0 w1) = halt w1) ->
+  forall c c' i s name fuel_body amount body r w' calls j wj ij sj fuel,
+  flag_seen cstate ext c = false -> prog !! pc c = Some i -> i_type i = IScript s -> s_cmd s = Some name ->
+  exists_cmd (cst (wd c)) name = true ->
+  cmd name (Inv (s_args s) (s_out s) (pc c)) (wd c) = (r, w') ->
+  alias_run cstate exists_cmd cmd prepare cleanup leaked fuel_body amount body (Inv (s_args s) (s_out s) (pc c)) (wd c) = Some (r, w', calls) ->
+  amount <= length (s_args s) ->
+  body_reaches cstate exists_cmd cmd body 0 (prepare (s_args s) (wd c)) j wj ->
+  body !! j = Some ij -> i_type ij = IScript sj ->
+  halt (ri_w (run_instruction cstate exists_cmd cmd wj ij j)) = true ->
+  exec cstate exists_cmd cmd prog lt c = inl c' -> 2 <= fuel ->
+  halt w' = true /\ iter_nohalt cstate exists_cmd cmd prog lt 1 c = Some c' /\
+  loop cstate exists_cmd cmd ext prog lt fuel c = Done (FOk Halted (wd c')) (trace c').
+Proof. exact halt_nested. Qed.
+
+(* the same for any command that leaves the flag up, whatever it runs inside *)
+Theorem C13_after_instruction : forall cstate exists_cmd (cmd : str -> inv -> world cstate -> result * world cstate) ext,
+  (forall name a w, halt w = true -> halt (snd (cmd name a w)) = true) ->
+  forall prog lt c c' i fuel,
+  flag_seen cstate ext c = false -> prog !! pc c = Some i ->
+  halt (ri_w (run_instruction cstate exists_cmd cmd (wd c) i (pc c))) = true ->
+  exec cstate exists_cmd cmd prog lt c = inl c' -> 2 <= fuel ->
+  iter_nohalt cstate exists_cmd cmd prog lt 1 c = Some c' /\
+  loop cstate exists_cmd cmd ext prog lt fuel c = Done (FOk Halted (wd c')) (trace c').
+Proof. exact halt_after_instruction. Qed.
